@@ -21,8 +21,8 @@ import time
 
 import driver
 
-SIZES = {"C14": 12, "C02": 10, "C11": 60}
-SIZES_THOROUGH = {"C14": 120, "C02": 80, "C11": 1500}
+SIZES = {"C14": 12, "C02": 10, "C04": 12, "C11": 60}
+SIZES_THOROUGH = {"C14": 120, "C02": 80, "C04": 120, "C11": 1500}
 
 
 def _collect_child(prop: str, per_group: int, nworkers: int, seed: int, parent_hashseed: str) -> dict:
